@@ -489,7 +489,8 @@ def run(p: Program, rep: Report, tier: str) -> None:
             if pa.exit == "return" and sends:
                 guard = [f for f, t in pa.facts if f[0] == "cmp" and f[1] == "In" and "MAPPING" in show(f[3])]
                 # `mapped = MAPPING.get(msg['type']); if mapped is None: raise` is the same guard
-                got_ = [f for f, t in pa.facts if f[0] == "cmp" and f[1] == "Is" and f[3] == ("const", None) and "MAPPING" in show(f[2]) and ".get(" in show(f[2])]
+                got_ = [f for f, t in pa.facts if f[0] == "cmp" and f[1] == "Is" and (f[3] == ("const", None) or (f[3][0] == "global" and f[2][0] == "call" and len(f[2][2]) > 1 and f[2][2][1] == f[3]))
+                        and "MAPPING" in show(f[2]) and ".get(" in show(f[2])]
                 if (guard and all(t is True for f, t in pa.facts if f in guard)) or (got_ and all(t is False for f, t in pa.facts if f in got_)):
                     rep.ok("R11.4", "ws_send forwards only message types found in the mapping")
                 else:
